@@ -47,7 +47,8 @@ def c08_case(data):
     flags = data[0]
     name = _text(data[1:])
     return {"name": name, "args": [[], {}, [1], {"a": 1}][flags & 3], "depth": (flags >> 2) & 3,
-            "side": ["load", "client", "server", "load"][(flags >> 4) & 3], "version": 2.0 if flags & 64 else 1.0, "kind": "fuzzed"}
+            "side": ["load", "client", "server", "load"][(flags >> 4) & 3], "version": 2.0 if flags & 64 else 1.0, "kind": "fuzzed",
+            "spell": data[1] if flags & 128 else 0}
 
 
 TARGETS = {
